@@ -59,6 +59,22 @@ def jobs(tier, seed):
     for r, c in [(2, 2), (2, 3)] + ([(3, 3)] if tier != "quick" else []):
         for s, e in ([((0, 0), (r - 1, c - 1)), ((r - 1, c - 1), (0, 1))] if tier == "quick" else _pairs(r, c, "all")):
             out.append(dict(h="solve_targeted", r=r, c=c, s=list(s), e=list(e)))
+    # query histories on one maze object (same start twice, then a repeat of the first query)
+    def seqs(r, c, starts, k):
+        cells = [(i, j) for i in range(r) for j in range(c)]
+        rng = np.random.default_rng(seed * 1009 + r * 10 + c)
+        res = []
+        for st in starts:
+            others = [x for x in cells if x != st]
+            for _ in range(k):
+                e1, e2 = (others[i] for i in rng.choice(len(others), size=2, replace=False))
+                res.append([[list(st), list(e1)], [list(st), list(e2)]] + ([[list(e2), list(st)], [list(st), list(e1)]] if (tier != "quick" or r * c <= 6) else []))
+        return res
+
+    for r, c, starts, k in ([(2, 3, [(0, 0), (0, 1), (1, 2)], 2), (2, 4, [(0, 0), (1, 1)], 2), (3, 3, [(0, 0), (1, 0), (1, 1), (2, 1)], 2 if tier == "quick" else 14)]
+                            + ([(2, 4, [(0, 1), (0, 3), (1, 0), (1, 2)], 4), (3, 4, [(0, 0), (1, 1)], 2), (4, 3, [(1, 0)], 2)] if tier != "quick" else [])):
+        for q in seqs(r, c, starts, k):
+            out.append(dict(h="astar_seq", r=r, c=c, queries=q, max_seconds=3000))
     out[0]["twin"] = True
     return out
 
@@ -109,6 +125,35 @@ def _run_astar(job):
         other.find_shortest_path((0, 0), (1, 2))
         again = py_path(LatticeMaze(connection_list=cl).find_shortest_path(s, e))
         obs.append(("the same query after solving a different maze returns the same path", z3.BoolVal(again == path)))
+        return obs
+
+    return run
+
+
+def _run_astar_seq(job):
+    """several queries on the SAME maze object: answers must not depend on what was asked before"""
+    from maze_dataset.maze.lattice_maze import LatticeMaze
+
+    r, c = job["r"], job["c"]
+    qs = [(tuple(a), tuple(b)) for a, b in job["queries"]]
+
+    def run(ctx, pinned=None):
+        cl, lat = sym_connection_list(r, c)
+        if pinned:
+            pin(pinned)
+        m = LatticeMaze(connection_list=cl)
+        obs, sig = [], []
+        for k, (s, e) in enumerate(qs):
+            try:
+                p = m.find_shortest_path(s, e)
+            except ValueError:
+                sig.append("ValueError")
+                obs += [(f"query {k + 1} on the same object: {n}", o) for n, o in _post(lat, s, e, "raised", None)]
+                continue
+            path = py_path(p)
+            sig.append([list(x) for x in path])
+            obs += [(f"query {k + 1} on the same object: {n}", o) for n, o in _post(lat, s, e, "returned", path)]
+        ctx.notes["sig"] = sig
         return obs
 
     return run
@@ -214,6 +259,44 @@ def _real_sig(job, inputs):
     return _real_outcome(job, inputs)[1]
 
 
+def _seq_outcomes(job, inputs):
+    from maze_dataset.maze.lattice_maze import LatticeMaze
+
+    cl = conn_from_cex(inputs, job["r"], job["c"])
+    m = LatticeMaze(connection_list=cl)
+    outs = []
+    for a, b in job["queries"]:
+        try:
+            outs.append([[int(x) for x in row] for row in m.find_shortest_path(tuple(a), tuple(b))])
+        except ValueError:
+            outs.append("ValueError")
+    return cl, outs
+
+
+def _replay_seq(job, inputs, notes):
+    cl, outs = _seq_outcomes(job, inputs)
+    for k, ((a, b), out) in enumerate(zip(job["queries"], outs)):
+        s, e = tuple(a), tuple(b)
+        d = _bfs_dist(cl, s, e)
+        hist = f"query {k + 1} of {job['queries']} on one maze object"
+        if out == "ValueError":
+            if d is not None:
+                return f"solver-raises-on-connected | {hist}: ValueError although {e} is reachable from {s}; connection_list={cl.astype(int).tolist()}"
+            continue
+        path = [tuple(x) for x in out]
+        if not path or path[0] != s or path[-1] != e:
+            return f"solver-wrong-endpoints | {hist}: path {path} for {s}->{e}; connection_list={cl.astype(int).tolist()}"
+        if any(_bfs_dist(cl, x, y) != 1 for x, y in zip(path, path[1:])):
+            return f"solver-walks-through-wall | {hist}: {path}; connection_list={cl.astype(int).tolist()}"
+        if d is None or len(path) - 1 != d:
+            return f"solver-not-shortest | {hist}: returned {len(path) - 1} steps for {s}->{e}, shortest is {d}; connection_list={cl.astype(int).tolist()}"
+    return None
+
+
+def _real_sig_seq(job, inputs):
+    return _seq_outcomes(job, inputs)[1]
+
+
 def _pinned(job, seed):
     """concrete mazes for translator validation: the repository's own test mazes where the shape
     matches, plus seeded random ones"""
@@ -230,6 +313,7 @@ def _pinned(job, seed):
 HARNESSES = {
     "astar": dict(run=_run_astar, replay=_replay, real_sig=_real_sig, pinned=_pinned),
     "solve_targeted": dict(run=_run_solve_targeted, replay=_replay, real_sig=_real_sig, pinned=_pinned),
+    "astar_seq": dict(run=_run_astar_seq, replay=_replay_seq, real_sig=_real_sig_seq, pinned=_pinned),
 }
 
 META = dict(
@@ -237,7 +321,8 @@ META = dict(
                "LatticeMaze.heuristic", "SolvedMaze.from_targeted_lattice_maze", "TargetedLatticeMaze.__post_init__",
                "SolvedMaze.__init__"],
     bounds=dict(
-        quick="all connection structures (every bit symbolic) on all grids r x c with r*c <= 6 and all ordered (start,end) pairs; 3x3 with 12 pairs",
+        quick="all connection structures (every bit symbolic) on all grids r x c with r*c <= 6 and all ordered (start,end) pairs; 3x3 with 12 pairs; "
+              "histories of queries on one maze object (two from the same start; on 2x3 also the reverse and a repeat) on 2x3, 2x4 and 3x3 (18 seeded histories)",
         thorough="as quick, plus 3x3 all 81 pairs, 3x4 and 4x3 with 6 pairs each, 2x8 (all 2^22 mazes) for the pair (0,7)->(1,0), solve_targeted on 3x3 all pairs",
     ),
     degenerate={},
